@@ -682,6 +682,16 @@ def t_all_salts(rec, seed, tier):
             rec.ev()
             rec.nt("totp-size", alg, size)
             o_totp_key(rec, {"size": size, "alg": alg, "scripts": [[r.getrandbits(800)], [r.getrandbits(800)]]}, soft=True)
+    # a custom alphabet / word list with repeated symbols would make the repeated symbol likelier and the entropy estimate wrong: refused
+    from passlib import pwd
+
+    for kw in ({"chars": "aab"}, {"chars": "abca"}, {"chars": "0123456789012"}, {"words": ["x", "y", "x"]}):
+        rec.ev()
+        fn = pwd.genword if "chars" in kw else pwd.genphrase
+        st, out = call(fn, entropy=40, **kw)
+        if not (st == "err" and isinstance(out, ValueError)):
+            rec.fail("C06/generator/duplicate-symbols-accepted", f"{fn.__name__}({kw}) accepts an alphabet with repeated symbols (non-uniform output, overstated entropy)", "genword",
+                     {"kind": "word" if "chars" in kw else "phrase", **kw, "entropy": 40, "length": None, "scripts": [[1], [2]]}, repr(out), "ValueError", soft=True)
     # django_disabled: '!' + a random suffix of the declared length over its declared alphabet
     h = table.handler("django_disabled")
     outs = [h.hash("x") for _ in range(200)]
